@@ -117,6 +117,10 @@ def compare(model: Model, ctx: TermCtx) -> List[Dict[str, Any]]:
         for s, n in fa_i.returns():
             k = branch_key(fa_i, Facts(fa_i, s), src_i)
             t = canon(fa_i.term_of(s.value, n), impl.pos_params)
+            from .terms import dynamic_dispatch
+
+            if dynamic_dispatch(t) is not None:
+                raise AnalysisError(f"{entry} chooses the fusion method with getattr(self, <name computed from a table>): the (outer, inner) cases cannot be read off its branches; the fusion-law comparison does not apply to this shape")
             rec = dict(entry=entry, branch=k, stmt=s, impl=impl, term=t)
             if "!subject" in k:
                 rec["kind"] = "subject"
